@@ -42,7 +42,19 @@ func fmapSeqIssues(rs *Resid, fn *ast.FuncDecl) []sideIssue {
 	if id, ok := paramType(fn, seq).(*ast.Ident); ok && id.Name == "string" {
 		isString = true
 	}
-	if isString {
+	// append form: the result starts empty (make([]B, 0, n)) and every iteration appends f(element); no position is computed,
+	// so for a string the range over the string itself visits exactly its runes, in order
+	outVar0 := ""
+	for _, r := range returnsIn(fn) {
+		outVar0 = retVal(r)
+	}
+	appendForm := false
+	if c, ok := firstDefine(fn, outVar0).(*ast.CallExpr); ok && canon(c.Fun) == "make" && len(c.Args) >= 2 && canon(c.Args[1]) == "0" {
+		appendForm = true
+	}
+	if isString && appendForm && ranged == seq && keyName(l.loop) == "_" {
+		// for _, r := range s: the runes of s
+	} else if isString {
 		if ranged != "[]rune("+seq+")" {
 			iss(l.loop, "string-range", "ranges over %s: ranging over a string yields byte offsets, not rune positions; the runes must be taken from []rune(%s)", rs.src(l.loop.X), seq)
 		}
@@ -73,6 +85,39 @@ func fmapSeqIssues(rs *Resid, fn *ast.FuncDecl) []sideIssue {
 	outVar := ""
 	for _, r := range returnsIn(fn) {
 		outVar = retVal(r)
+	}
+	if appendForm {
+		n := 0
+		for _, st := range l.loop.Body.List {
+			as, ok := st.(*ast.AssignStmt)
+			if !ok || len(as.Lhs) != 1 || len(as.Rhs) != 1 || canon(as.Lhs[0]) != outVar {
+				continue
+			}
+			c, ok := as.Rhs[0].(*ast.CallExpr)
+			if !ok || canon(c.Fun) != "append" || len(c.Args) != 2 || canon(c.Args[0]) != outVar {
+				iss(as, "slot", "assigns the result list something other than append(%s, f(element))", outVar)
+				continue
+			}
+			n++
+			stored := c.Args[1]
+			if id, isID := unparen(stored).(*ast.Ident); isID {
+				for _, st2 := range l.loop.Body.List {
+					if d, isD := st2.(*ast.AssignStmt); isD && d.Tok == token.DEFINE && len(d.Lhs) == 1 && len(d.Rhs) == 1 && canon(d.Lhs[0]) == id.Name && d.Pos() < as.Pos() {
+						stored = d.Rhs[0]
+					}
+				}
+			}
+			if fc, ok := stored.(*ast.CallExpr); !ok || canon(fc.Fun) != f {
+				iss(as, "slot-value", "appends %s instead of f(element)", rs.src(c.Args[1]))
+			}
+		}
+		if n != 1 {
+			iss(l.loop, "store-count", "appends %d results per element, unconditionally (expected one)", n)
+		}
+		if sd := newSided(rs, fn); sd != nil {
+			out = append(out, writesThroughRoots(sd, nil)...)
+		}
+		return out
 	}
 	d := firstDefine(fn, outVar)
 	okLen := false
@@ -128,6 +173,21 @@ func joinSliceIssues(rs *Resid, fn *ast.FuncDecl) []sideIssue {
 		out = append(out, sideIssue{n, fmt.Sprintf(format, a...), kind, ""})
 	}
 	L := fieldNames(fn.Type.Params)[0]
+	// `if L != nil { … return res }; return nil` is the guard clause `if L == nil { return nil }; …` with the branches exchanged
+	if len(fn.Body.List) == 2 {
+		if ifs, ok := fn.Body.List[0].(*ast.IfStmt); ok && ifs.Else == nil && ifs.Init == nil {
+			if be, ok := unparen(ifs.Cond).(*ast.BinaryExpr); ok && be.Op == token.NEQ && isNilLit(be.Y) && canon(be.X) == L {
+				if ret, ok := fn.Body.List[1].(*ast.ReturnStmt); ok && len(ret.Results) == 1 && isNilLit(ret.Results[0]) && len(ifs.Body.List) > 0 {
+					if _, endsInReturn := ifs.Body.List[len(ifs.Body.List)-1].(*ast.ReturnStmt); endsInReturn {
+						guard := &ast.IfStmt{If: ifs.If, Cond: &ast.BinaryExpr{X: be.X, OpPos: be.OpPos, Op: token.EQL, Y: be.Y}, Body: &ast.BlockStmt{Lbrace: ret.Pos(), List: []ast.Stmt{ret}, Rbrace: ret.End()}}
+						fn2 := *fn
+						fn2.Body = &ast.BlockStmt{Lbrace: fn.Body.Lbrace, List: append([]ast.Stmt{guard}, ifs.Body.List...), Rbrace: fn.Body.Rbrace}
+						return joinSliceIssues(rs, &fn2)
+					}
+				}
+			}
+		}
+	}
 	// nil ⇒ nil
 	okNil := false
 	if len(fn.Body.List) > 0 {
